@@ -1,5 +1,7 @@
 import XV.Model.Acl
+import XV.Model.AclTx
 import XV.Lemmas.Acl
+import XV.Lemmas.AclTx
 /-!
 # C11 — access-control evaluation is sound, monotone and counts each signer once
 
@@ -336,5 +338,356 @@ example :
       [[.acct 0, .key 1]] [.other, .method 7] [] = false ∧
     verifyRWSetPermission ⟨envVictim, fun c => if c = 7 then some (.acct 0) else none⟩ true
       [[.acct 0, .key 0]] [.method 8] [] = false := by decide
+
+/-! ## C11 end to end: `State.VerifyTx` (model `XV.Acl.verifyTx`), token inputs, read faults -/
+
+/-- A rule that cannot be read is never taken for "no rule": if `IdentifyAccount` accepts while the lookups of the
+names in `bad` answer an error, then none of the names it looks up is among them, and the account's rule is satisfied
+in EVERY environment that agrees with the readable part — whatever the unreadable rules really are. -/
+theorem fault_never_grants (bad : Name → Bool) (env : Env) (root : Name) (us : List URI)
+    (h : identifyAccountF bad env root us = true) :
+    (∀ n ∈ lookupsAcc root us, bad n = false) ∧
+    ∀ env' : Env, (∀ n, bad n = false → env' n = env n) → identifyAccount env' root us = true := by
+  obtain ⟨hb, _⟩ := (identifyAccountF_iff bad env root us).1 h
+  refine ⟨hb, fun env' hag => ?_⟩
+  have := identifyAccountF_transfer bad env env' hag root us h
+  rwa [identifyAccountF_clean] at this
+
+/-- the same for a contract-method rule; an unreadable method rule rejects -/
+theorem fault_never_grants_method (bad : Name → Bool) (badRule : Bool) (env : Env) (rule : Option Rule) (us : List URI)
+    (h : checkMethodPermF bad badRule env rule us = true) :
+    badRule = false ∧ (∀ n ∈ lookupsMeth us, bad n = false) ∧
+    ∀ env' : Env, (∀ n, bad n = false → env' n = env n) → checkMethodPerm env' rule us = true := by
+  obtain ⟨h1, h2, h3⟩ := (checkMethodPermF_iff bad badRule env rule us).1 h
+  refine ⟨h1, h2, fun env' hag => ?_⟩
+  rw [← h3]
+  exact checkMethodPerm_congr env' env rule us (fun n hn => hag n (h2 n hn))
+
+/-- an unreadable root, or an unreadable name anywhere in a uri that starts with the root, rejects -/
+theorem unreadable_rejects (bad : Name → Bool) (env : Env) (root : Name) (us : List URI) (n : Name)
+    (hn : n ∈ lookupsAcc root us) (hb : bad n = true) : identifyAccountF bad env root us = false := by
+  cases h : identifyAccountF bad env root us with
+  | false => rfl
+  | true =>
+    have := (fault_never_grants bad env root us h).1 n hn
+    rw [hb] at this; cases this
+
+/-- without unreadable names the fault-aware evaluation is `IdentifyAccount` itself -/
+theorem no_fault_same (env : Env) (root : Name) (us : List URI) :
+    identifyAccountF (fun _ => false) env root us = identifyAccount env root us := identifyAccountF_clean env root us
+
+/-- `verifyUTXOPermission` passes exactly when EVERY token input — wherever it stands in the list — has an owner that
+is already verified (a key that signed) or is an account whose stored rule can be read, exists, and is satisfied by
+AuthRequire. -/
+theorem utxo_perm_iff (ch : TxChain) (auth : List URI) (ins ver : List Name) :
+    (verifyUtxo ch auth ins ver).isSome = true ↔ ∀ o ∈ ins, InputAuthorised ch auth ver o :=
+  verifyUtxo_isSome_iff ch auth ins ver
+
+/-- no input is skipped: the order of the inputs and repetitions are irrelevant to the verdict -/
+theorem utxo_perm_order_irrelevant (ch : TxChain) (auth : List URI) (ins ins' ver : List Name)
+    (hset : ∀ o, o ∈ ins ↔ o ∈ ins') :
+    (verifyUtxo ch auth ins ver).isSome = (verifyUtxo ch auth ins' ver).isSome := by
+  rw [Bool.eq_iff_iff, utxo_perm_iff, utxo_perm_iff]
+  constructor
+  · intro h o ho; exact h o ((hset o).2 ho)
+  · intro h o ho; exact h o ((hset o).1 ho)
+
+/-- an input behind any number of other inputs is checked like the first one (the statement the seeded change
+`continue -> break` violates) -/
+theorem utxo_perm_checks_every_position (ch : TxChain) (auth : List URI) (pre post ver : List Name) (o : Name)
+    (h : (verifyUtxo ch auth (pre ++ o :: post) ver).isSome = true) : InputAuthorised ch auth ver o :=
+  (utxo_perm_iff ch auth _ ver).1 h o (by simp)
+
+/-- spending from an account needs the account's rule in force: stated with the specification `SpecAccount` -/
+theorem utxo_account_input_needs_rule (ch : TxChain) (hwf : EnvWF ch.env) (auth : List URI) (ins ver : List Name)
+    (h : (verifyUtxo ch auth ins ver).isSome = true) (a : Nat) (ha : Name.acct a ∈ ins) (hv : Name.acct a ∉ ver) :
+    ch.env (.acct a) ≠ none ∧ SpecAccount ch.env (maxLen auth) (.acct a) auth := by
+  rcases (utxo_perm_iff ch auth ins ver).1 h _ ha with h1 | ⟨_, _, hne, hid⟩
+  · exact absurd h1 hv
+  · refine ⟨hne, ?_⟩
+    have := ((identifyAccountF_iff _ _ _ _).1 hid).2
+    exact (eval_eq_spec ch.env hwf _ auth _ (Nat.le_refl _)).1 this
+
+/-- an address that did not sign cannot be spent from -/
+theorem utxo_key_input_needs_signature (ch : TxChain) (auth : List URI) (ins ver : List Name)
+    (h : (verifyUtxo ch auth ins ver).isSome = true) (k : Nat) (hk : Name.key k ∈ ins) : Name.key k ∈ ver := by
+  rcases (utxo_perm_iff ch auth ins ver).1 h _ hk with h1 | ⟨⟨a, ha⟩, _⟩
+  · exact h1
+  · cases ha
+
+/-- Unverified names contribute nothing, end to end: when `verifySignatures` passes, every AuthRequire uri ends in a
+verified name, and the verified names are keys each of which either signed as initiator or has its OWN valid signature
+attached to a uri that ends with it. -/
+theorem sigs_verified_are_signers (ch : TxChain) (tx : Tx) (ver : List Name) (h : verifySigs ch tx = some ver) :
+    (∀ u ∈ tx.auth, ∃ n, u.getLast? = some n ∧ n ∈ ver) ∧
+    (∀ n ∈ ver, (∃ k, n = .key k) ∧
+      (some n ∈ tx.isig ∨ ∃ p ∈ tx.auth.zip tx.usig, p.1.getLast? = some n ∧ p.2 = some n)) := by
+  unfold verifySigs at h
+  by_cases hlen : tx.auth.length = tx.usig.length
+  · simp only [hlen, ne_eq, not_true_eq_false, if_false] at h
+    have hcover : ∀ (v0 : List Name), sigAuth (tx.auth.zip tx.usig) v0 = some ver →
+        (∀ n ∈ v0, (∃ k, n = .key k) ∧ some n ∈ tx.isig) →
+        (∀ u ∈ tx.auth, ∃ n, u.getLast? = some n ∧ n ∈ ver) ∧
+        (∀ n ∈ ver, (∃ k, n = .key k) ∧
+          (some n ∈ tx.isig ∨ ∃ p ∈ tx.auth.zip tx.usig, p.1.getLast? = some n ∧ p.2 = some n)) := by
+      intro v0 hs h0
+      obtain ⟨_, h2, h3⟩ := sigAuth_sound _ v0 ver hs
+      constructor
+      · intro u hu
+        obtain ⟨i, hi, rfl⟩ := List.getElem_of_mem hu
+        have hi' : i < (tx.auth.zip tx.usig).length := by simp [List.length_zip, ← hlen, hi]
+        have := h2 ((tx.auth.zip tx.usig)[i]) (List.getElem_mem hi')
+        simpa [List.getElem_zip] using this
+      · intro n hn
+        rcases h3 n hn with h4 | ⟨p, hp, hl, hsg⟩
+        · exact ⟨(h0 n h4).1, Or.inl (h0 n h4).2⟩
+        · obtain ⟨hk, hs'⟩ := lastSigned_key p.1 p.2 n hl hsg
+          exact ⟨hk, Or.inr ⟨p, hp, hl, hs'⟩⟩
+    cases hini : tx.init with
+    | key k =>
+      simp only [hini] at h
+      cases hsig : tx.isig with
+      | nil => simp [hsig] at h
+      | cons x xs =>
+        simp only [hsig] at h
+        cases x with
+        | none => simp at h
+        | some j =>
+          cases j with
+          | acct b => simp at h
+          | key j =>
+            simp only at h
+            by_cases hjk : j = k
+            · subst hjk
+              simp only [if_true] at h
+              have := hcover [.key j] h (by
+                intro n hn
+                simp only [List.mem_singleton] at hn
+                subst hn
+                exact ⟨⟨j, rfl⟩, by simp [hsig]⟩)
+              simpa [hsig] using this
+            · simp [hjk] at h
+    | acct a =>
+      simp only [hini] at h
+      cases hsig : tx.isig with
+      | nil => simp [hsig] at h
+      | cons x xs =>
+        cases hall : allSigned (x :: xs) with
+        | none => simp [hsig, hall] at h
+        | some ks =>
+          simp only [hsig, hall] at h
+          by_cases hid : identifyAccountF ch.bad ch.env (.acct a) (ks.map (fun k => [Name.acct a, k])) = true
+          · simp only [hid, if_true] at h
+            obtain ⟨hmap, hkeys⟩ := allSigned_keys _ ks hall
+            have := hcover ks h (by
+              intro n hn
+              refine ⟨hkeys n hn, ?_⟩
+              rw [hsig, hmap]
+              exact List.mem_map.2 ⟨n, hn, rfl⟩)
+            simpa [hsig] using this
+          · simp [hid] at h
+  · simp [hlen] at h
+
+/-- The access-control content of an accepted transaction.  If `verifyTx` accepts (possibly under read faults) then
+(1) the signatures passed with some verified set `ver` (see `sigs_verified_are_signers`); (2) EVERY token input is owned
+by a verified key or by an account with a stored, readable rule that AuthRequire satisfies (`SpecAccount`); (3) for
+EVERY contract request the rule of the called method is satisfied by the initiator address and AuthRequire
+(`SpecMethod`); (4) every write to an ACL bucket, of whichever request, is authorised by the rule in force of the owning
+account, and a method rule can only be written when the contract's owner entry is confirmed and has no unconfirmed
+overwrite. -/
+theorem verifyTx_sound (ch : TxChain) (hwf : EnvWF ch.env) (hmr : RuleWF ch.mrule) (tx : Tx)
+    (h : verifyTx ch tx = true) :
+    ∃ ver, verifySigs ch tx = some ver ∧
+      (∀ k, Name.key k ∈ tx.inputs → Name.key k ∈ ver) ∧
+      (∀ a, Name.acct a ∈ tx.inputs →
+        ch.env (.acct a) ≠ none ∧ SpecAccount ch.env (maxLen tx.auth) (.acct a) tx.auth) ∧
+      (∀ act ∈ tx.acts,
+        SpecMethod ch.env (maxLen (authUsers tx.init tx.auth)) (methodRuleOf ch act) (authUsers tx.init tx.auth)) ∧
+      (∀ a, (Act.setAcl a ∈ tx.acts ∨ Act.newAcc a ∈ tx.acts) → SpecAccount ch.env (maxLen tx.auth) a tx.auth) ∧
+      (∀ c, Act.setMethod c ∈ tx.acts → ch.pendOwner c = false ∧
+        ∃ o, ch.owner c = some o ∧ SpecAccount ch.env (maxLen tx.auth) o tx.auth) := by
+  unfold verifyTx at h
+  cases hs : verifySigs ch tx with
+  | none => simp [hs] at h
+  | some ver =>
+    simp only [hs] at h
+    cases hu : verifyUtxo ch tx.auth tx.inputs ver with
+    | none => simp [hu] at h
+    | some ver' =>
+      simp only [hu, Bool.and_eq_true] at h
+      obtain ⟨hcp, hrw⟩ := h
+      have hsome : (verifyUtxo ch tx.auth tx.inputs ver).isSome = true := by simp [hu]
+      obtain ⟨_, hsig2⟩ := sigs_verified_are_signers ch tx ver hs
+      -- every name in ver' is identified (keys trivially: `IdentifyAccount` on an address evaluates nothing)
+      have hver' : ∀ n ∈ ver', identifyAccount ch.env n tx.auth = true := by
+        intro n hn
+        rcases (verifyUtxo_ver ch tx.auth tx.inputs ver ver' hu).2 n hn with h1 | ⟨_, h2⟩
+        · obtain ⟨⟨k, rfl⟩, _⟩ := hsig2 n h1
+          simp [identifyAccount, identifyAccountD]
+        · exact ((identifyAccountF_iff _ _ _ _).1 h2).2
+      have hwr := verifyWritesG_sound (fun a => identifyAccountF ch.bad ch.env a tx.auth) (ownerInForce ch)
+        (fun a => identifyAccount ch.env a tx.auth = true)
+        (fun a ha => ((identifyAccountF_iff _ _ _ _).1 ha).2) (tx.acts.flatMap writesOf) ver' hver' hrw
+      refine ⟨ver, rfl, ?_, ?_, ?_, ?_, ?_⟩
+      · intro k hk
+        exact utxo_key_input_needs_signature ch tx.auth tx.inputs ver hsome k hk
+      · intro a ha
+        by_cases hv : Name.acct a ∈ ver
+        · obtain ⟨⟨k, hk⟩, _⟩ := hsig2 _ hv
+          cases hk
+        · exact utxo_account_input_needs_rule ch hwf tx.auth tx.inputs ver hsome a ha hv
+      · intro act hact
+        unfold verifyContractPerm at hcp
+        have hperm := List.all_eq_true.1 hcp act hact
+        have hcm := ((checkMethodPermF_iff _ _ _ _ _).1 hperm).2.2
+        have hrwf : RuleWF (methodRuleOf ch act) := by
+          cases act with
+          | call => simpa [methodRuleOf] using hmr
+          | setAcl a => intro ms theta hh; simp [methodRuleOf] at hh
+          | newAcc a => intro ms theta hh; simp [methodRuleOf] at hh
+          | setMethod c => intro ms theta hh; simp [methodRuleOf] at hh
+        exact (eval_eq_spec_method ch.env hwf _ hrwf _ _ (Nat.le_refl _)).1 hcm
+      · intro a ha
+        have : Write.account a ∈ tx.acts.flatMap writesOf := by
+          rcases ha with e | e
+          · exact List.mem_flatMap.2 ⟨_, e, by simp [writesOf]⟩
+          · exact List.mem_flatMap.2 ⟨_, e, by simp [writesOf]⟩
+        exact (eval_eq_spec ch.env hwf a tx.auth _ (Nat.le_refl _)).1 (hwr _ this)
+      · intro c hc
+        have : Write.method c ∈ tx.acts.flatMap writesOf := List.mem_flatMap.2 ⟨_, hc, by simp [writesOf]⟩
+        obtain ⟨o, ho, hid⟩ := hwr _ this
+        unfold ownerInForce at ho
+        by_cases hp : ch.pendOwner c = true
+        · simp [hp] at ho
+        · have hp' : ch.pendOwner c = false := by simpa using hp
+          simp only [hp', Bool.false_eq_true, if_false] at ho
+          exact ⟨hp', o, ho, (eval_eq_spec ch.env hwf o tx.auth _ (Nat.le_refl _)).1 hid⟩
+
+/-- Read faults never grant, end to end: a transaction accepted while some rules cannot be read is also accepted by
+the fault-free evaluation on EVERY chain that agrees with the readable part — whatever the unreadable rules really
+are.  (The seeded change that maps a "... not found" read error to "no rule stored" violates this.) -/
+theorem verifyTx_fault_never_grants (ch : TxChain) (tx : Tx) (h : verifyTx ch tx = true) (env' : Env)
+    (hag : ∀ n, ch.bad n = false → env' n = ch.env n) :
+    verifyTx { ch.clean with env := env' } tx = true := by
+  let ch' : TxChain := { ch.clean with env := env' }
+  have hbad' : ∀ n, ch'.bad n = false := fun _ => rfl
+  have hag' : ∀ n, ch.bad n = false → ch'.env n = ch.env n := hag
+  have hidt : ∀ root us, identifyAccountF ch.bad ch.env root us = true →
+      identifyAccountF ch'.bad ch'.env root us = true := by
+    intro root us hh
+    exact identifyAccountF_transfer ch.bad ch.env env' hag root us hh
+  -- signatures
+  have hsigs : ∀ ver, verifySigs ch tx = some ver → verifySigs ch' tx = some ver := by
+    intro ver hs
+    unfold verifySigs at hs ⊢
+    by_cases hlen : tx.auth.length = tx.usig.length
+    · simp only [hlen, ne_eq, not_true_eq_false, if_false] at hs ⊢
+      cases hini : tx.init with
+      | key k => simpa [hini] using hs
+      | acct a =>
+        simp only [hini] at hs ⊢
+        cases hsig : tx.isig with
+        | nil => simp [hsig] at hs
+        | cons x xs =>
+          cases hall : allSigned (x :: xs) with
+          | none => simp [hsig, hall] at hs
+          | some ks =>
+            simp only [hsig, hall] at hs ⊢
+            by_cases hid : identifyAccountF ch.bad ch.env (.acct a) (ks.map (fun k => [Name.acct a, k])) = true
+            · simp only [hid, if_true] at hs
+              simp only [hidt _ _ hid, if_true]
+              exact hs
+            · simp [hid] at hs
+    · simp [hlen] at hs
+  unfold verifyTx at h ⊢
+  cases hs : verifySigs ch tx with
+  | none => simp [hs] at h
+  | some ver =>
+    simp only [hs] at h
+    cases hu : verifyUtxo ch tx.auth tx.inputs ver with
+    | none => simp [hu] at h
+    | some ver' =>
+      simp only [hu, Bool.and_eq_true] at h
+      obtain ⟨hcp, hrw⟩ := h
+      have hs' := hsigs ver hs
+      have hu' := verifyUtxo_transfer ch ch' hag' hbad' tx.auth tx.inputs ver ver' hu
+      simp only [ch'] at hs' hu'
+      simp only [hs', hu', Bool.and_eq_true]
+      constructor
+      · unfold verifyContractPerm at hcp ⊢
+        rw [List.all_eq_true] at hcp ⊢
+        intro act hact
+        obtain ⟨_, h2, h3⟩ := fault_never_grants_method _ _ _ _ _ (hcp act hact)
+        rw [checkMethodPermF_iff]
+        refine ⟨rfl, fun _ _ => rfl, ?_⟩
+        have : methodRuleOf { ch.clean with env := env' } act = methodRuleOf ch act := by cases act <;> rfl
+        rw [this]
+        exact h3 env' hag
+      · unfold verifyRW at hrw ⊢
+        have : ownerInForce ch' = ownerInForce ch := rfl
+        exact verifyWritesG_mono _ _ _ (fun a ha => hidt a tx.auth ha) _ _ hrw
+
+/-- `verifyRWSetPermission` as modelled before (`verifyWrites`, the subject of `acl_change_needs_owner`) is the
+fault-free instance of the loop used by `verifyTx` -/
+theorem verifyWrites_is_instance (ch : Chain) (auth : List URI) (ws : List Write) (ver : List Name) :
+    verifyWrites ch auth ws ver = verifyWritesG (fun a => identifyAccountF (fun _ => false) ch.env a auth) ch.owner ws ver := by
+  rw [verifyWrites_eq_G]
+  congr 1
+  funext a
+  exact (identifyAccountF_clean ch.env a auth).symm
+
+/-! ### non-vacuity of the end-to-end statements -/
+
+/-- account 0: key 1 alone; contract 0 is owned by account 0; the called method needs key 2 -/
+def chainDemo : TxChain := {
+  env := fun n => if n = .acct 0 then some (.thr [(.key 1, 4)] 4) else none,
+  owner := fun c => if c = 0 then some (.acct 0) else none,
+  pendOwner := fun _ => false,
+  mrule := some (.thr [(.key 2, 4)] 4),
+  bad := fun _ => false,
+  badM := fun _ => false }
+
+/-- key 0 pays with an own output first and an output of account 0 second -/
+def txSteal : Tx :=
+  { init := .key 0, isig := [some (.key 0)], auth := [[.key 0]], usig := [some (.key 0)],
+    inputs := [.key 0, .acct 0], acts := [] }
+
+/-- the same with key 1, the member of the account's rule, signing for the account -/
+def txGood : Tx :=
+  { init := .key 0, isig := [some (.key 0)], auth := [[.acct 0, .key 1]], usig := [some (.key 1)],
+    inputs := [.key 0, .acct 0, .key 0, .acct 0], acts := [] }
+
+/-- key 0 tries to rewrite the rule of account 0 -/
+def txTakeover : Tx :=
+  { init := .key 0, isig := [some (.key 0)], auth := [[.acct 0, .key 0]], usig := [some (.key 0)],
+    inputs := [], acts := [.setAcl (.acct 0)] }
+
+example : verifyTx chainDemo txSteal = false ∧ verifyTx chainDemo txGood = true ∧
+    verifyTx chainDemo txTakeover = false ∧
+    verifyTx chainDemo { txTakeover with auth := [[.acct 0, .key 1]], usig := [some (.key 1)] } = true ∧
+    -- a signature that is not the last component's own does not verify the uri
+    verifyTx chainDemo { txGood with usig := [some (.key 0)] } = false ∧
+    -- the method rule (key 2) and the owner of contract 0 (account 0, i.e. key 1)
+    verifyTx chainDemo { txGood with inputs := [], acts := [.call] } = false ∧
+    verifyTx chainDemo { txGood with inputs := [], acts := [.call], auth := [[.key 2]], usig := [some (.key 2)] } = true ∧
+    verifyTx chainDemo { txGood with inputs := [], acts := [.setMethod 0] } = true ∧
+    -- every request counts: the second one names a contract without owner entry, the third needs key 2
+    verifyTx chainDemo { txGood with inputs := [], acts := [.setMethod 0, .setMethod 1] } = false ∧
+    verifyTx chainDemo { txGood with inputs := [], acts := [.setMethod 0, .setAcl (.acct 0), .call] } = false ∧
+    verifyTx chainDemo { txGood with inputs := [], acts := [.setMethod 0, .setAcl (.acct 0), .newAcc (.acct 2)] } = true ∧
+    verifyTx chainDemo { txGood with inputs := [], acts := [.setMethod 1] } = false ∧
+    verifyTx { chainDemo with pendOwner := fun c => c == 0 } { txGood with inputs := [], acts := [.setMethod 0] } = false := by
+  decide
+
+/-- with the rule of account 0 unreadable nothing that needs it is accepted — neither the takeover (which would pass
+if "unreadable" were taken for "no rule") nor the legitimate owner's transaction -/
+example : verifyTx { chainDemo with bad := fun n => n == .acct 0 } txTakeover = false ∧
+    verifyTx { chainDemo with bad := fun n => n == .acct 0 } txGood = false ∧
+    verifyTx { chainDemo with bad := fun n => n == .acct 0, env := fun _ => none } txTakeover = false ∧
+    -- "no rule stored" itself is open (documented behaviour of the code), which is why the distinction matters
+    verifyTx { chainDemo with env := fun _ => none } txTakeover = true ∧
+    -- a fault on a name the transaction does not meet changes nothing
+    verifyTx { chainDemo with bad := fun n => n == .acct 3 } txGood = true := by
+  decide
 
 end XV.C11
